@@ -110,12 +110,18 @@ func (c *Conn) Read(p []byte) (int, error) {
 				h.buf = h.buf[k:]
 				h.consumed += k
 				h.cond.Broadcast()
-				if f.HoldReadAt != 0 && n == f.HoldReadAt && c.held != nil {
+				if f.HoldReadAt != 0 && n == f.HoldReadAt {
 					// the read has completed successfully; its return is delayed until the harness lets go
-					h.mu.Unlock()
-					close(c.Holding)
-					<-c.held
-					h.mu.Lock()
+					// (the channels are taken once, under the lock: ReleaseRead may run at the same time)
+					c.mu.Lock()
+					held, holding := c.held, c.Holding
+					c.mu.Unlock()
+					if held != nil {
+						h.mu.Unlock()
+						close(holding)
+						<-held
+						h.mu.Lock()
+					}
 				}
 				return k, nil
 			}
